@@ -4,6 +4,7 @@ package main
 
 import (
 	"fmt"
+	"golang.org/x/tools/go/ssa"
 	"go/constant"
 	"go/types"
 	"strconv"
@@ -120,12 +121,26 @@ func (sc *SpecCtx) eval(e *SExpr) (*Val, error) {
 				if c, ok := obj.(*types.Const); ok {
 					return g.constToVal(c)
 				}
-				if v, ok := obj.(*types.Var); ok {
+				if _, ok := obj.(*types.Var); ok {
 					// package-level variable: read its cell
-					if gl, ok := g.fn.Pkg.Members[e.Name]; ok {
-						_ = gl
+					if gl, ok := g.fn.Pkg.Members[e.Name].(*ssa.Global); ok {
+						gv := g.globalVal(gl)
+						elem := gl.Type().(*types.Pointer).Elem()
+						if isStruct(elem) {
+							return &Val{T: gv.T, Ty: gl.Type()}, nil
+						}
+						return &Val{T: g.load(sc.cur, gv, elem), Ty: elem}, nil
 					}
-					_ = v
+				}
+			}
+		}
+		// a compiler-generated package variable (e.g. init$guard)
+		if g.fn.Pkg != nil {
+			if gl, ok := g.fn.Pkg.Members[e.Name].(*ssa.Global); ok {
+				gv := g.globalVal(gl)
+				elem := gl.Type().(*types.Pointer).Elem()
+				if !isStruct(elem) {
+					return &Val{T: g.load(sc.cur, gv, elem), Ty: elem}, nil
 				}
 			}
 		}
